@@ -425,8 +425,8 @@ def savefwd_pass(run: Run, pkg: Package, funcs: List[FunctionInfo]) -> int:
             if arg is None:
                 continue
             n += 1
-            if not any(isinstance(m, ast.Name) and m.id in params for m in ast.walk(arg)):
-                continue            # a constant / empty name: nothing of the caller's is written
+            if not (isinstance(arg, ast.Name) and arg.id in params):
+                continue            # a constant, or a name DERIVED from the caller's (outputfile + ".QIJ_cg.npy"): an auxiliary file by design
             stmt = _stmt_of(call, par)
             why = None
             loc_node = call
